@@ -169,8 +169,8 @@ func parseSegments(version string) ([]segment, error) {
 		}
 	}
 
-	// Remove trailing zero segments from numeric part only
-	segments = removeTrailingZeros(segments)
+	// Remove the zero segments that do not count (Gem::Version#canonical_segments)
+	segments = canonicalSegments(segments)
 
 	return segments, nil
 }
@@ -207,6 +207,20 @@ func removeTrailingZeros(segments []segment) []segment {
 		segments = segments[:len(segments)-1]
 	}
 	return segments
+}
+
+// canonicalSegments drops the zero segments Gem::Version#canonical_segments drops: those that end
+// the leading numeric segments (1.0.rc1 is 1.rc1) and those that end the list (1.0 is 1)
+func canonicalSegments(segments []segment) []segment {
+	lead := 0
+	for lead < len(segments) && segments[lead].isNumeric {
+		lead++
+	}
+	if lead == len(segments) {
+		return removeTrailingZeros(segments)
+	}
+	canonical := removeTrailingZeros(segments[:lead:lead])
+	return append(canonical, removeTrailingZeros(segments[lead:])...)
 }
 
 // String returns the string representation of the version
